@@ -3,10 +3,14 @@
    (a) no dependence on the schedule (the containers of every finished write session are
    FileModel.pieces of the concatenated encodings), (b) no dependence on the container size /
    level for the payload, (c) fresh objects are fully determined (C17_determined, in Properties_C17).
-   PARTIAL: "no emitted byte depends on indeterminate memory" for caller-populated objects is decided
-   by the poisoned-memory runs of the correspondence, not yet by a theorem. *)
+   (d) no emitted byte depends on indeterminate memory: the encoder model marks a byte taken from an
+   uninitialised member (C14_only_determined_bytes: if the members the write program may emit hold determined
+   values, only real bytes come out — any class, any variant; C14_fresh_encodes_real_bytes: true of every
+   freshly constructed object).  The tie of (d) to the code — that the model's "uninitialised" is the code's —
+   is the poisoned-memory correspondence run (several fill patterns). *)
 From Coq Require Import String List Bool ZArith Lia.
-From VB Require Import Base FileModel FileFacts WPipe PipeSkel FileSkel SkelEq.
+From VB Require Import Base IR Sem FileModel FileFacts WPipe PipeSkel FileSkel SkelEq DefFacts.
+From VB Require Import Classes Consts Common C17 DefEq.
 Import ListNotations.
 Local Open Scope Z_scope.
 
@@ -34,3 +38,15 @@ Theorem C14_stateless_write_path :
   no_static skel_close = true /\ no_static skel_write = true.
 Proof. exact stateless_write_path. Qed.
 Print Assumptions C14_stateless_write_path.
+
+(* no emitted byte depends on indeterminate memory *)
+Theorem C14_only_determined_bytes : forall cs cap c s s' out,
+  (forall f, In f (wfields (prog_of cs c M_write)) -> defined_val (s f)) ->
+  enc cs cap c s = Ok (s', out) -> Forall byte out.
+Proof. exact enc_defined. Qed.
+Print Assumptions C14_only_determined_bytes.
+
+Theorem C14_fresh_encodes_real_bytes : forall c, In c object_classes -> ~ In c init_exceptions ->
+  forall s' out, enc Common.cs default_cap c (fresh Common.cs c) = Ok (s', out) -> Forall byte out.
+Proof. exact fresh_encodes_real_bytes. Qed.
+Print Assumptions C14_fresh_encodes_real_bytes.
